@@ -31,18 +31,108 @@ type cell struct {
 	NsVia       string `json:"nsVia"`      // "pod": metadata.namespace is set; "request": only AdmissionRequest.namespace is
 	Label       string `json:"label"`      // value of the sidecar.istio.io/inject label or <absent>
 	Annotation  string `json:"annotation"` // value of the sidecar.istio.io/inject annotation or <absent>
-	Never       string `json:"never"`      // selNoMatch | selMatch | selUnset | selMatchExpr
-	Always      string `json:"always"`
+	Never       string `json:"never"`      // form of the neverInjectSelector: unset | matchLabels | exists | doesNotExist | notIn
+	Always      string `json:"always"`     // form of the alwaysInjectSelector
+	PodLabels   string `json:"podLabels"`  // the pod's other labels: app | app+never | app+always | app+never+always | nil | empty
 	Policy      string `json:"policy"`
 	APIVersion  string `json:"apiVersion"` // AdmissionReview version used on the webhook path
 }
 
 func (c cell) String() string {
-	return fmt.Sprintf("hostNet=%v ns=%s(%s) label=%s anno=%s never=%s always=%s policy=%q api=%s",
-		c.HostNetwork, c.Namespace, c.NsVia, c.Label, c.Annotation, c.Never, c.Always, c.Policy, c.APIVersion)
+	return fmt.Sprintf("hostNet=%v ns=%s(%s) label=%s anno=%s never=%s always=%s podLabels=%s policy=%q api=%s",
+		c.HostNetwork, c.Namespace, c.NsVia, c.Label, c.Annotation, c.Never, c.Always, c.PodLabels, c.Policy, c.APIVersion)
 }
 
-func selMatches(s string) bool { return s == "selMatch" || s == "selMatchExpr" }
+// normalise maps replays recorded with the first version of the table (the selector dimension then
+// said selNoMatch | selMatch | selUnset | selMatchExpr and implied the pod's labels) to the current form.
+func (c cell) normalise() cell {
+	if c.PodLabels != "" {
+		return c
+	}
+	legacy := func(v string) (form string, carries bool) {
+		switch v {
+		case "selNoMatch":
+			return "matchLabels", false
+		case "selMatch":
+			return "matchLabels", true
+		case "selUnset":
+			return "unset", true
+		case "selMatchExpr":
+			return "exists", true
+		}
+		return v, false
+	}
+	var n, a bool
+	c.Never, n = legacy(c.Never)
+	c.Always, a = legacy(c.Always)
+	c.PodLabels = "app"
+	if n {
+		c.PodLabels += "+never"
+	}
+	if a {
+		c.PodLabels += "+always"
+	}
+	return c
+}
+
+const (
+	refNeverKey  = "c19.verif/never"
+	refAlwaysKey = "c19.verif/always"
+)
+
+// otherLabels returns the labels of the pod apart from the inject label; ok=false means "no label map".
+func (c cell) otherLabels() (m map[string]string, present bool) {
+	switch c.PodLabels {
+	case "nil":
+		return nil, false
+	case "empty":
+		return map[string]string{}, true
+	}
+	m = map[string]string{}
+	for _, part := range strings.Split(c.PodLabels, "+") {
+		switch part {
+		case "app":
+			m["app"] = "c19"
+		case "never":
+			m[refNeverKey] = "yes"
+		case "always":
+			m[refAlwaysKey] = "yes"
+		}
+	}
+	return m, true
+}
+
+// refSelects is the Kubernetes label-selector semantics for the five selector forms of the table: a
+// requirement on one key. Negative forms select a pod that does not carry the key at all.
+func refSelects(form, key string, podLabels map[string]string) bool {
+	v, has := podLabels[key]
+	switch form {
+	case "matchLabels": // key = yes
+		return has && v == "yes"
+	case "exists":
+		return has
+	case "doesNotExist":
+		return !has
+	case "notIn": // key notin (no, off)
+		return !has || (v != "no" && v != "off")
+	}
+	return false // unset: no selector configured
+}
+
+func (c cell) allLabels() map[string]string {
+	m, _ := c.otherLabels()
+	out := map[string]string{}
+	for k, v := range m {
+		out[k] = v
+	}
+	if c.Label != absent {
+		out["sidecar.istio.io/inject"] = c.Label
+	}
+	return out
+}
+
+func (c cell) neverMatches() bool  { return refSelects(c.Never, refNeverKey, c.allLabels()) }
+func (c cell) alwaysMatches() bool { return refSelects(c.Always, refAlwaysKey, c.allLabels()) }
 
 type tri int
 
@@ -110,9 +200,9 @@ func decide(c cell, v tri) (inject bool, stage string) {
 		return true, "podSetting=true"
 	case v == triNo:
 		return false, "podSetting=false"
-	case selMatches(c.Never):
+	case c.neverMatches():
 		return false, "neverInjectSelector"
-	case selMatches(c.Always):
+	case c.alwaysMatches():
 		return true, "alwaysInjectSelector"
 	case c.Policy == "enabled":
 		return true, "policy=enabled"
@@ -160,10 +250,10 @@ func precedenceMatters(c cell) bool {
 			ops = append(ops, false)
 		}
 	}
-	if selMatches(c.Never) {
+	if c.neverMatches() {
 		ops = append(ops, false)
 	}
-	if selMatches(c.Always) {
+	if c.alwaysMatches() {
 		ops = append(ops, true)
 	}
 	ops = append(ops, c.Policy == "enabled")
